@@ -174,8 +174,9 @@ func TestWorker(t *testing.T) {
 			RunsPerJob                int
 			HangSecs                  int
 			RunLimitSecs              int
+			WarmKnob                  bool
 		}
-		d := desc{RunLimitSecs: pr.RunLimit(), ID: pr.ID, Level: pr.Level, Rule: pr.Rule, NodesQuick: pr.Nodes("quick"), NodesThorough: pr.Nodes("thorough"), Cross: pr.Cross,
+		d := desc{RunLimitSecs: pr.RunLimit(), WarmKnob: pr.WarmKnob, ID: pr.ID, Level: pr.Level, Rule: pr.Rule, NodesQuick: pr.Nodes("quick"), NodesThorough: pr.Nodes("thorough"), Cross: pr.Cross,
 			Real: pr.Real, Stubs: pr.Stubs, Assume: pr.Assume, QuickSecs: pr.QuickSecs, ThoroughSecs: pr.ThoroughSecs, RunsPerJob: pr.RunsPerJob, HangSecs: pr.HangSecs}
 		b, _ := json.Marshal(&d)
 		os.WriteFile(os.Getenv("VERIF_OUT"), b, 0o644)
